@@ -476,6 +476,16 @@ def parse_instr(l):
         return Ins(op, dst, (ty, inc), text)
     if op in ('call', 'invoke'):
         return _parse_call(op, dst, rest, text)
+    if op == 'atomicrmw':
+        if rest.startswith('volatile '):
+            rest = rest[9:]
+        bop, r2 = rest.split(' ', 1)
+        parts = split_top(r2)
+        pty, p = take_type(parts[0])
+        ty, v = take_type(parts[1])
+        return Ins(op, dst, (bop, pty, p.split(' ')[0], ty, v.split(' ')[0]), text)
+    if op == 'fence':
+        return Ins('nop', None, None, text)
     if op == 'unreachable':
         return Ins(op, None, None, text)
     if op == 'extractvalue':
